@@ -153,7 +153,7 @@ impl Curve {
         if self.can_extrapolate() {
             while self.largest_known_distance() < horizon {
                 #[cfg(feature = "verif")]
-                crate::verif_hooks::tick("arrival::Curve::extrapolate");
+                crate::verif_hooks::tick_n("arrival::Curve::extrapolate", 1 + self.min_distance.len() as u64 / 64);
                 self.min_distance.push(self.extrapolate_next())
             }
         }
@@ -166,7 +166,7 @@ impl Curve {
         if self.can_extrapolate() {
             while self.jobs_in_largest_known_distance() < n {
                 #[cfg(feature = "verif")]
-                crate::verif_hooks::tick("arrival::Curve::extrapolate_steps");
+                crate::verif_hooks::tick_n("arrival::Curve::extrapolate_steps", 1 + self.min_distance.len() as u64 / 64);
                 self.min_distance.push(self.extrapolate_next())
             }
         }
